@@ -9,6 +9,7 @@ import XalanModel.Containers.DOMStringCompare
 import XalanModel.Containers.Bitmap
 import XalanModel.Containers.ObjCache
 import XalanModel.Containers.StringPool
+import XalanModel.Containers.StringCache
 import Driver.Util
 /-
 xm_c20: replays container operation logs on the Lean models.
@@ -38,6 +39,9 @@ structure St where
   ocache : OCache Int := {}
   ocslots : Array (Option Nat) := Array.replicate 4 none
   pools : Array SPool := Array.replicate 2 (SPool.new 101)
+  scache : SCache := {}
+  scslots : Array (Option Nat) := Array.replicate 8 none
+  sctag : Nat := 0
 
 def nats (l : List String) : Option (List Nat) := l.mapM String.toNat?
 
@@ -345,6 +349,9 @@ def strStep (s : St) : List String → St × String
   | ["appstr", i, j] => match i.toNat?, j.toNat? with
     | some i, some j => setStr s i ((getStr s i).append (getStr s j).chars)
     | _, _ => (s, "bad")
+  | ["ctor", i, u] => match i.toNat?, units0 u with
+    | some i, some xs => setStr s i (DStr.ofPtr xs xs.length)
+    | _, _ => (s, "bad")
   | ["appz", i, u] => match i.toNat?, units0 u with
     | some i, some xs => setStr s i ((getStr s i).appendZ xs)
     | _, _ => (s, "bad")
@@ -508,7 +515,7 @@ def poolStep (s : St) : List String → St × String
   | ["new", i, bc] => match nats [i, bc] with
     | some [i, bc] => let p := SPool.new bc; ({ s with pools := s.pools.setIfInBounds i p }, showPool "" p)
     | _ => (s, "bad")
-  | ["get", i, u] => match i.toNat?, units u with
+  | [g, i, u] => match (if g = "get" ∨ g = "gets" then i.toNat? else none), units0 u with
     | some i, some cs =>
       match (s.pools.getD i (SPool.new 101)).get cs with
       | none => (s, "mem")
@@ -519,6 +526,30 @@ def poolStep (s : St) : List String → St × String
   | ["clear", i] => match i.toNat? with
     | some i => let p := (s.pools.getD i (SPool.new 101)).clear; ({ s with pools := s.pools.setIfInBounds i p }, showPool "" p)
     | none => (s, "bad")
+  | _ => (s, "bad")
+
+/- ---------------------------------------------------------------- string cache -/
+
+def scStep (s : St) : List String → St × String
+  | ["new", m] => match m.toNat? with
+    | some m => ({ s with scache := { maxSize := m }, scslots := Array.replicate 8 none, sctag := 0 }, "ok")
+    | none => (s, "bad")
+  | ["get", sl] => match sl.toNat? with
+    | some sl =>
+      let (c, id) := s.scache.get
+      let cap := c.caps.getD id 0
+      ({ s with scache := c.setCap id (16 + s.sctag), sctag := s.sctag + 1,
+                scslots := s.scslots.setIfInBounds sl (some id) }, s!"r={cap} n=0")
+    | none => (s, "bad")
+  | ["release", sl] => match sl.toNat? with
+    | some sl => match s.scslots.getD sl none with
+      | none => (s, "mem")
+      | some id =>
+        let (c, r) := s.scache.release id
+        ({ s with scache := c, scslots := s.scslots.setIfInBounds sl none }, s!"r={if r then 1 else 0}")
+    | none => (s, "bad")
+  | ["reset"] => ({ s with scache := s.scache.reset, scslots := Array.replicate 8 none }, "ok")
+  | ["clear"] => ({ s with scache := s.scache.clear, scslots := Array.replicate 8 none }, "ok")
   | _ => (s, "bad")
 
 /- ---------------------------------------------------------------- comparison family -/
@@ -582,6 +613,7 @@ def step (s : St) : List String → St × String
     | none => (s, "bad")
   | "pool" :: rest => poolStep s rest
   | "cmp" :: rest => cmpStep s rest
+  | "sc" :: rest => scStep s rest
   | "vec" :: rest => withLive (vecStep { s with cnt := (0, 0, 0, 0) } rest)
   | "map" :: op :: rest => match ints rest with
     | some a => counted s "map" op a (mapStep s op a)
